@@ -127,9 +127,20 @@ def is_valid(p, victim_conf_peer, presented, auth, peer_pub_pem):
 
 def impostor_case(ck, seed, role, auth, vi, rng):
     """role = role of the VICTIM ('initiator': real A against an impostor responder; 'responder': real B against an impostor initiator)."""
-    sim, a, b = S.make_pair(seed, auth=auth)
+    mixed = auth == 'mixed'
+    if mixed:
+        # asymmetric methods in one connection: the victim authenticates itself with a PSK, its peer is configured with a public key ONLY
+        auth = 'rsa'
+        ca, cb = S.pair_conf(auth='rsa')
+        vic = ca if role == 'initiator' else cb
+        vic['conn']['my_auth'] = {'id': vic['conn']['my_auth']['id'], 'psk': (PSK_A if role == 'initiator' else PSK_B).decode()}
+        sim = S.Sim(seed)
+        a = sim.add('A', [S.A4], ca)
+        b = sim.add('B', [S.B4], cb)
+    else:
+        sim, a, b = S.make_pair(seed, auth=auth)
     pa, pb = S.rsa_pair('a'), S.rsa_pair('b')
-    sim.case = {'family': 'impostor', 'victim_role': role, 'auth': auth}
+    sim.case = {'family': 'impostor', 'victim_role': role, 'auth': 'victim-psk/peer-rsa' if mixed else auth}
     if role == 'initiator':
         victim, vaddr, iaddr = a, S.A4, S.B4
         sim.acquire(a, 0)
@@ -150,7 +161,7 @@ def impostor_case(ck, seed, role, auth, vi, rng):
         v_auth = next(x for x in inner if x['type'] == codec.AUTH)
         # interop control: what the real initiator presented must verify under ITS credential by the reference
         octs = p.peer_signed_octets(v_id['idtype'], v_id['data'])
-        ok = (v_auth['method'] == 2 and v_auth['data'] == ikecrypto.psk_auth(p.suite['prf'], PSK_A, octs)) if auth == 'psk' else \
+        ok = (v_auth['method'] == 2 and v_auth['data'] == ikecrypto.psk_auth(p.suite['prf'], PSK_A, octs)) if (auth == 'psk' or mixed) else \
             (v_auth['method'] == 1 and rsa_ok(pa[1], v_auth['data'], octs))
         ck.count('control.real_initiator_auth_verified_by_reference')
         if not ok or (v_id['idtype'], v_id['data']) != ID_A:
@@ -173,6 +184,11 @@ def impostor_case(ck, seed, role, auth, vi, rng):
         vs = variants(p, rng, auth, ID_A, PSK_A, PSK_B, ID_B, None, pa[0], pb[0], pa[1])
         peer_conf = {'id': ID_A, 'psk': PSK_A}
         peer_pub = pa[1]
+    if mixed:
+        it_, id_ = (ID_B if role == 'initiator' else ID_A)
+        own = PSK_A if role == 'initiator' else PSK_B
+        vs = vs + [('psk-method-keyed-with-the-victims-own-psk', it_, id_, 2, p.auth_psk(own, it_, id_)),
+                   ('psk-method-keyed-with-the-victims-own-psk-as-text-bytes', it_, id_, 2, p.auth_psk(own + b'', it_, id_, nonce=None))]
     if vi >= len(vs):
         return 'done'
     label, idt, idd, method, data = vs[vi]
@@ -190,8 +206,10 @@ def impostor_case(ck, seed, role, auth, vi, rng):
     valid = is_valid(p, peer_conf, (idt, idd, method, data), auth, peer_pub)
     est = established(victim)
     inst = newsa_count(victim) - n0
+    if mixed:
+        ck.count('impostor.mixed_method_connections')
     ck.count(f'impostor.{role}.{auth}.{"valid" if valid else "invalid"}')
-    ck.seen('impostor.variants', (role, auth, label))
+    ck.seen('impostor.variants', (role, 'mixed' if mixed else auth, label))
     outcome = 'established' if est else 'refused'
     ck.nontrivial(('impostor', role, auth, label, outcome))
     if label == 'valid' and not valid:
@@ -600,7 +618,7 @@ def run(ck):
     reps = 1 if not thorough else 40
     for rep in range(reps):
         for role in ('initiator', 'responder'):
-            for auth in ('psk', 'rsa'):
+            for auth in ('psk', 'rsa', 'mixed'):
                 for vi in range(40):
                     n += 1
                     if not ck.mine(n):
@@ -656,6 +674,7 @@ def verdict(ck):
     ck.floor('real initiator AUTH verified by the reference', c['control.real_initiator_auth_verified_by_reference'], 20)
     ck.floor('invalid AUTH variants presented', sum(v for k, v in c.items() if k.startswith('impostor.') and k.endswith('.invalid')), 50)
     ck.floor('distinct (role, method, variant)', len(ck.sets['impostor.variants']), 55)
+    ck.floor('impostor cases against a mixed-method connection (victim PSK, peer public key only)', c['impostor.mixed_method_connections'], 15)
     ck.floor('semantic rewrites', c['mitm.request.semantic'] + c['mitm.response.semantic'], 100)
     ck.floor('octets-only rewrites', c['mitm.request.octets-only'] + c['mitm.response.octets-only'], 50)
     ck.floor('mismatch handshakes', c['mismatch.handshakes'], 30)
